@@ -29,6 +29,13 @@
 //!   one response with the failed-encode code; every other body is byte for byte (or at least decodes to) the handler's
 //!   result. Signatures `C03:<server>:body-differs-after-failed-serialization:{same,other}-connection`.
 //!
+//! * WebSocket servers whose outbound path backs up (c03_bp.rs): `with_outbound_capacity` 1, 2, 3, 8 on current-thread and
+//!   multi-thread runtimes; the raw peer writes the WHOLE pipeline (requests answered on the reader with small and
+//!   10..400 KiB responses, every class of rejected request, notifies, off-reader requests) before it reads anything, or
+//!   reads slowly, some with a small receive buffer, so that the connection's outbound queue is full when later
+//!   requests are processed. Same oracle (the blocking and the async TCP server get the same pipeline as references);
+//!   what the class adds is the arrival-order clause under back-pressure. Server names `ws-{inline,offreader}-outq<N>-{current,multi}-thread`.
+//!
 //! `c01_net` (C01 "net" stage) lives in c03_c01net.rs.
 
 #[path = "c03_cli.rs"]
@@ -41,6 +48,8 @@ mod c01net;
 mod srv;
 #[path = "c03_rt.rs"]
 mod rt;
+#[path = "c03_bp.rs"]
+mod bp;
 
 use crate::common::*;
 use crate::oracle::Frame;
@@ -484,6 +493,10 @@ fn differential(rep: &mut Report, cx: &SeqCtx, servers: &[Srv], singles: &[Vec<O
     }
     // informational only (not in the statement): middleware-wrapped vs plain router
     for (i, r) in cx.reqs.iter().enumerate() {
+        // (the group of the back-pressure class has no middleware family)
+        if servers.len() <= 4 || servers[0].mw == servers[4].mw {
+            break;
+        }
         if r.notify != 1 {
             if let (Some(a), Some(b)) = (&singles[0][i], &singles[4][i]) {
                 if a != b {
@@ -544,7 +557,9 @@ pub fn run(args: &Args) -> Report {
          and several times longer than the timeout whose remainder after the cut is itself one or more valid request frames or \
          garbage; plus typed handlers whose RESULT fails to serialize part-way (4 fail modes x JSON/BEVE/UTF-8/raw response format x \
          6 kinds that return the record, notify 0/1) pipelined between ordinary requests and next to bystander connections on the \
-         same servers, every other body compared with the third-party encoding of the handler's result; distinct = (class label, target, body format, variant, notify, landmark/width/offset) per request plus the \
+         same servers, every other body compared with the third-party encoding of the handler's result; plus pipelines against \
+         WebSocket servers with outbound queues of 1/2/3/8 messages on current-thread and multi-thread runtimes from peers that \
+         write the whole pipeline before reading / read slowly (arrival order of reader-produced answers under back-pressure); distinct = (class label, target, body format, variant, notify, landmark/width/offset) per request plus the \
          class-label sequence of each pipeline, and (server, outer kind, tail kind, cut class, pause class, cut offsets) per \
          read-timeout scenario",
     );
@@ -703,6 +718,109 @@ async fn ser_phase(rep: &mut Report, args: &Args, servers: &Arc<Vec<Srv>>, hb: &
     }
 }
 
+/// Workload class "the server's outbound path backs up" (c03_bp.rs): pipelines against WebSocket servers with outbound
+/// queues of 1, 2, 3, 8 messages on current-thread and multi-thread runtimes, from peers that write everything before
+/// they read / read slowly; the blocking and the async TCP server get the same pipeline as references.
+async fn bp_phase(rep: &mut Report, args: &Args, group: &Arc<Vec<Srv>>, hb: &Heartbeat, seen: &std::cell::RefCell<std::collections::HashSet<String>>, gst: &mut GenStats, window: Duration) {
+    let mut rng = Rng::new(args.seed ^ 0xC03_0B9);
+    let n = args.budget(160, 2400);
+    let grace = Duration::from_millis(250);
+    let t0 = rep.elapsed();
+    let in_flight = 4usize;
+    type Outs = Vec<(ConnOut, Option<(&'static str, cli::BpObs)>)>;
+    let mut pending: std::collections::VecDeque<(u64, &'static str, Arc<Vec<Req>>, tokio::task::JoinHandle<Outs>)> = Default::default();
+    let mut next = 0u64;
+    let mut executed = 0u64;
+    rep.set("bp.pipelines_planned", json!(n));
+    loop {
+        while pending.len() < in_flight && next < n && rep.elapsed() < t0 + window {
+            let seq = 970_000 + next;
+            let mut r = rng.fork(next);
+            let (style, reqs) = gen_::bp_seq(seq, &mut r, gst);
+            let reqs = Arc::new(reqs);
+            let (group, reqs2, mut pr) = (group.clone(), reqs.clone(), r.fork(9));
+            let h = tokio::spawn(async move {
+                let reqs = reqs2;
+                let wire: Arc<Vec<Vec<u8>>> = Arc::new(reqs.iter().map(|r| r.wire()).collect());
+                let n_expected = reqs.iter().filter(|r| r.notify != 1).count();
+                let mut hs = vec![];
+                for s in group.iter() {
+                    let (wire, addr, sid) = (wire.clone(), s.addr, s.sid);
+                    if s.is_ws() {
+                        let keys: Vec<(u8, u64)> = reqs.iter().filter(|q| q.expect.invoked).map(|q| (EV_H, q.token)).collect();
+                        let (mode, peer) = bp::peer_for(&mut pr.fork(sid as u64), grace);
+                        hs.push(tokio::spawn(async move {
+                            let (o, obs) = cli::ws_conn_bp(addr, wire, n_expected, sid, keys, peer).await;
+                            (o, Some((mode, obs)))
+                        }));
+                    } else {
+                        let r = pr.fork(sid as u64);
+                        hs.push(tokio::spawn(async move { (cli::tcp_conn(addr, wire, n_expected, false, r).await, None) }));
+                    }
+                }
+                let mut outs: Outs = vec![];
+                for h in hs {
+                    outs.push(match h.await {
+                        Ok(o) => o,
+                        Err(e) => (ConnOut { frames: vec![], end: End::Harness(format!("client task failed: {e}")), garbage: None, waited_out: false, bytes: 0 }, None),
+                    });
+                }
+                outs
+            });
+            pending.push_back((seq, style, reqs, h));
+            next += 1;
+        }
+        let Some((seq, style, reqs, h)) = pending.pop_front() else { break };
+        let outs = match h.await {
+            Ok(o) => o,
+            Err(e) => {
+                rep.inconclusive(format!("back-pressure pipeline {seq} failed: {e}"));
+                continue;
+            }
+        };
+        executed += 1;
+        rep.count("bp.pipelines_executed", 1);
+        rep.count(&format!("bp.pipelines.{style}"), 1);
+        rep.count("bp.requests_per_path", reqs.len() as u64);
+        rep.count("bp.requests_with_large_response_per_path", reqs.iter().filter(|r| r.variant.starts_with("large-")).count() as u64);
+        rep.count("bp.rejected_requests_per_path", reqs.iter().filter(|r| !r.expect.dispatched && r.notify != 1).count() as u64);
+        rep.count("bp.notifies_per_path", reqs.iter().filter(|r| r.notify == 1).count() as u64);
+        // a rejected request with a request answered on the reader pipelined behind it: the pair the order clause is about
+        let rej_then_inline = (0..reqs.len()).filter(|&i| !reqs[i].expect.dispatched && reqs[i].notify != 1 && reqs[i + 1..].iter().any(|q| q.notify != 1 && (!q.expect.dispatched || q.target.map(|t| !t.blocking_variant()).unwrap_or(true)))).count() as u64;
+        for (s, (o, info)) in group.iter().zip(outs.iter()) {
+            let Some((mode, obs)) = info else { continue };
+            if matches!(o.end, End::Harness(_)) {
+                continue;
+            }
+            let flavour = if bp::is_current_thread(s) { "current-thread" } else { "multi-thread" };
+            rep.count(&format!("bp.connections.{flavour}"), 1);
+            rep.count(&format!("bp.connections.{}", s.name()), 1);
+            rep.count(&format!("bp.peer.{mode}"), 1);
+            rep.count(&format!("bp.rejected_requests_with_reader_answered_request_behind.{flavour}"), rej_then_inline);
+            if obs.wrote_all_before_reading {
+                rep.count("bp.peers_wrote_whole_pipeline_before_first_read", 1);
+            }
+            if obs.grace_expired {
+                rep.count("bp.peers_started_reading_because_their_writes_stalled", 1);
+            }
+            rep.count("bp.response_bytes_received", o.bytes as u64);
+        }
+        let before = rep.get_count("inline_order_pairs_checked");
+        let couts: Vec<ConnOut> = outs.into_iter().map(|(o, _)| o).collect();
+        let cx = SeqCtx { seed: args.seed, seq, reqs: &reqs, stalled: hb.max_gap_ms() > 1000, seen, ser: None };
+        judge_sequence(rep, &cx, group, &couts, executed == 1);
+        let after = rep.get_count("inline_order_pairs_checked");
+        rep.count("bp.inline_order_pairs_checked", after - before);
+    }
+    rep.set("bp.phase_wall_ms", json!((rep.elapsed() - t0).as_millis() as u64));
+    if next < n {
+        rep.set("bp.stopped_by_wall_clock_budget", json!(true));
+    }
+    if executed == 0 || rep.get_count("bp.connections.current-thread") == 0 || rep.get_count("bp.inline_order_pairs_checked") == 0 {
+        rep.inconclusive("back-pressure class: no pipeline judged on a current-thread WebSocket server with a short outbound queue");
+    }
+}
+
 fn run_inner(args: &Args, rep: &mut Report) {
     let hb = Heartbeat::start();
     let srv_rt = tokio::runtime::Builder::new_multi_thread().worker_threads(4).thread_name("c03-srv").enable_all().build().unwrap();
@@ -721,8 +839,17 @@ fn run_inner(args: &Args, rep: &mut Report) {
             Arc::new(vec![])
         }
     };
+    // short-outbound-queue WebSocket servers, preceded by the blocking and the async TCP server as references
+    let bp_group: Arc<Vec<Srv>> = match bp::start(&srv_rt) {
+        Ok(s) => Arc::new(servers.iter().filter(|s| !s.is_ws() && !s.mw).cloned().chain(s).collect()),
+        Err(e) => {
+            rep.inconclusive(format!("could not start the short-outbound-queue servers: {e}"));
+            Arc::new(vec![])
+        }
+    };
     let mut names: Vec<String> = servers.iter().map(|s| s.name()).collect();
     names.extend(rt_servers.iter().map(|s| s.name()));
+    names.extend(bp_group.iter().filter(|s| s.tag.is_some()).map(|s| s.name()));
     rep.set("servers", json!(names));
     let n = args.budget(2_500, 36_000);
     let deadline = Duration::from_secs(if args.thorough() { 420 } else { 33 });
@@ -775,13 +902,17 @@ fn run_inner(args: &Args, rep: &mut Report) {
             let cx = SeqCtx { seed, seq, reqs: &reqs, stalled, seen: &seen, ser: None };
             judge_sequence(rep, &cx, &servers, &outs, seq < 3);
         }
+        // ---- class 4: WebSocket servers whose outbound path backs up (own servers + the two plain TCP servers)
+        if !bp_group.is_empty() {
+            bp_phase(rep, args, &bp_group, &hb, &seen, &mut gst, Duration::from_secs(if args.thorough() { 150 } else { 14 })).await;
+        }
         // late or unattributable invocations: anything still in the log was produced after its request
         // had been judged (a second dispatch arriving late) or carries a token nobody sent
         tokio::time::sleep(Duration::from_millis(300)).await;
     });
     let leftovers = srv::ev_drain();
     for ((sid, kind, key), (cnt, route)) in leftovers.iter().take(5) {
-        let name = servers.iter().find(|s| s.sid == *sid).map(|s| s.name()).or_else(|| rt_servers.iter().find(|s| s.sid == *sid).map(|s| s.name())).unwrap_or_default();
+        let name = servers.iter().find(|s| s.sid == *sid).map(|s| s.name()).or_else(|| rt_servers.iter().find(|s| s.sid == *sid).map(|s| s.name())).or_else(|| bp_group.iter().find(|s| s.sid == *sid).map(|s| s.name())).unwrap_or_default();
         rep.violation(
             format!("C03:late-or-unattributable-invocation:{name}:{}", if *kind == EV_H { "handler" } else { "middleware" }),
             format!("{name}: {cnt} invocation record(s) with key {key} (route id {route}) after every request had been judged: a handler ran again late, or for a token no request carried (sequence {} request {} if a token)", key / 256, (key % 256).wrapping_sub(1)),
